@@ -14,7 +14,7 @@ RULE = ('Base documents: generated conformant documents of every selectable map 
         'non-trivial = distinct (map, node path, fault kind) triples decided.')
 ASSUMPTIONS = ['a syntax fault may be reported at any element position the violated note names', 'unknown / out-of-place segments may be reported with segment code 1 or 2',
                'faults are only injected where they cannot change how the segment or its neighbours are matched (no qualifiers, HL/LX numbers, BHT02), except the structural kinds, which are constructed so that the successor still matches its own node first']
-REQUIRED_COUNTERS = ['bases:with-interleaved-sibling-loops', 'bases:with-X,Y,X-sibling-loops', 'missing_segment:in-later-instance-after-sibling-loop', 'bad_code:member-of-another-external-set-seen-earlier', 'bad_code:code-list-on-non-ID-element', 'missing_required:whole-composite', 'missing_required:whole-composite:at-the-tail', 'bad_qualified_datetime:format:DT', 'bad_qualified_datetime:format:TM', 'bad_qualified_datetime:format:RD8', 'bad_qualified_datetime:well-formed-in-another-listed-format', 'syntax:L:short', 'syntax:L:gaps', 'syntax:P:short', 'syntax:P:gaps', 'syntax:C:gaps', 'syntax:R:short', 'bad_code:situational-first-element-with-code-list', 'bad_code:with-another-set-excluded', 'bad_code:with-another-set-excluded:related-name', 'bad_char:outside-charset:B:00501', 'bad_char:outside-charset:B:00401', 'bad_char:outside-charset:E:00401', 'faults'] + ['kind:' + k for k in faults.ALL_KINDS] + ['localised', 'others-accepted-checked']
+REQUIRED_COUNTERS = ['bases:with-interleaved-sibling-loops', 'bases:with-X,Y,X-sibling-loops', 'missing_segment:in-later-instance-after-sibling-loop', 'bad_code:member-of-another-external-set-seen-earlier', 'bad_code:code-list-on-non-ID-element', 'missing_required:whole-composite', 'missing_required:whole-composite:at-the-tail', 'bad_qualified_datetime:format:DT', 'bad_qualified_datetime:format:TM', 'bad_qualified_datetime:format:RD8', 'bad_qualified_datetime:well-formed-in-another-listed-format', 'syntax:L:short', 'syntax:L:gaps', 'syntax:P:short', 'syntax:P:gaps', 'syntax:C:gaps', 'syntax:R:short', 'too_short:numeric:characters-reach-the-minimum-digits-do-not', 'bad_code:situational-first-element-with-code-list', 'bad_code:with-another-set-excluded', 'bad_code:with-another-set-excluded:related-name', 'bad_char:outside-charset:B:00501', 'bad_char:outside-charset:B:00401', 'bad_char:outside-charset:E:00401', 'faults'] + ['kind:' + k for k in faults.ALL_KINDS] + ['localised', 'others-accepted-checked']
 MIN_CASES = {'quick': 1200, 'thorough': 30000}
 WATCHDOG_S = {'quick': 1200, 'thorough': 7200}
 
@@ -179,6 +179,8 @@ def run(ctx):
                         ctx.count('not-applicable:' + kind)
                         break
                     case = {'map': e['file'], 'entry': e, 'gen_seed': seed, 'params': kw, 'fault': f.describe(), 'text': f.doc.text() if len(f.doc.recs) < 120 else None}
+                    if f.kind == 'too_short' and f.note:
+                        ctx.count('too_short:' + f.note)
                     if f.note == 'situational-first-element-with-code-list':
                         ctx.count('bad_code:situational-first-element-with-code-list')
                     if f.note == 'code-list-on-non-ID-element':
@@ -261,6 +263,39 @@ def run(ctx):
                 continue
             done += 1
             ctx.count('syntax:' + f.note.split(' shape:')[1])
+            judge(ctx, f, {'map': e['file'], 'entry': e, 'gen_seed': seed, 'params': kw, 'fault': f.describe(), 'text': f.doc.text() if len(f.doc.recs) < 120 else None}, sigs)
+            n += 1
+    # directed: numeric elements whose minimum length is above 1 (rare: the exchange rate CUR03 of the 4010 835 / 820) given too few digits, with and
+    # without a sign or decimal point that brings the character count up to the minimum
+    for e in entries:
+        if not ctx.mine(('numeric-min', e['file'], e.get('tspc'))):
+            continue
+        root = gen_doc.load_map(e['file'])
+        if not any(nd.kind == 'ele' and nd.usage != 'N' and nd.parent.kind == 'seg' and nd.parent.id not in faults.ENVELOPE and nd.data_ele in gen_doc.DE() and gen_doc.dtype_of(nd)[1] > 1
+                   and (gen_doc.dtype_of(nd)[0] == 'R' or gen_doc.dtype_of(nd)[0][0] == 'N') and not nd.codes for nd in refmap.walk(root)):
+            continue
+        done = 0
+        for t in range(20):
+            if done >= (3 if ctx.quick else 10):
+                break
+            seed = zlib.crc32(repr((ctx.seed, 'numeric-min', e['file'], t)).encode())
+            kw = dict(fill=0.8, opt_prob=1.0, maxrep=1, charset='E', rich=False, n_isa=1, n_gs=1, n_st=1)
+            try:
+                base = gen_doc.gen_document(e, seed, **kw)
+            except gen_doc.GenFailed:
+                continue
+            if len(base.recs) > 900:
+                continue
+            rng = ctx.sub_rng('c03n', e['file'], t)
+            f = faults.inject(rng, base, kind='too_short', tries=8)
+            if f is None or not f.note:
+                continue
+            r0 = pipeline.validate(base.text(), charset=base.charset)
+            if r0.exc is not None or r0.verdict is not True:
+                ctx.count('base-not-accepted')
+                continue
+            done += 1
+            ctx.count('too_short:' + f.note)
             judge(ctx, f, {'map': e['file'], 'entry': e, 'gen_seed': seed, 'params': kw, 'fault': f.describe(), 'text': f.doc.text() if len(f.doc.recs) < 120 else None}, sigs)
             n += 1
     # directed: an element bound to an external code set whose name is contained in (or contains) another set's name, outside its list, while the
